@@ -356,7 +356,7 @@ def lopsided(dx, dy, rng_par):
             + p[3] * np.exp(-0.5 * ((dx - p[4]) ** 2 + (dy - p[5]) ** 2) / 0.8 ** 2))
 
 
-def symmetric_scene(shape, centre, par, noise_seed, sym_mask_pairs, with_error):
+def symmetric_scene(shape, centre, par, noise_seed, sym_mask_pairs, with_error, bowl=0.0):
     """data = h(p-c) + h(c-p) + symmetric noise; mask = pixels whose mirror image is outside the cutout
     (+ optional symmetric pairs); error map symmetric.  Junk is stored under the mask."""
     ny, nx = shape
@@ -364,6 +364,9 @@ def symmetric_scene(shape, centre, par, noise_seed, sym_mask_pairs, with_error):
     yy, xx = np.mgrid[0:ny, 0:nx].astype(float)
     dx, dy = xx - cx, yy - cy
     data = lopsided(dx, dy, par) + lopsided(-dx, -dy, par)
+    # an over-subtracted background: the source keeps its point symmetry and a positive total, its
+    # wings become negative
+    data = data - bowl * par[0]
     rl = np.random.default_rng(noise_seed)
     # symmetric noise / error: n(p) + n(mirror(p)) is point-symmetric by construction
     n1 = rl.uniform(0, 0.025 * par[0], shape)
@@ -393,10 +396,10 @@ def symmetric_scene(shape, centre, par, noise_seed, sym_mask_pairs, with_error):
     return data, (mask if mask.any() else None), (err if with_error else None)
 
 
-def check_symmetric(rec, fn, shape, centre, par, noise_seed, pairs, with_error, kw, tag):
+def check_symmetric(rec, fn, shape, centre, par, noise_seed, pairs, with_error, kw, tag, bowl=0.0):
     case = {'kind': 'sym', 'fn': fn, 'shape': list(shape), 'centre': list(centre), 'par': list(par),
-            'noise_seed': noise_seed, 'pairs': pairs, 'with_error': with_error, 'kw': kw}
-    data, mask, err = symmetric_scene(shape, centre, par, noise_seed, pairs, with_error)
+            'noise_seed': noise_seed, 'pairs': pairs, 'with_error': with_error, 'kw': kw, 'bowl': bowl}
+    data, mask, err = symmetric_scene(shape, centre, par, noise_seed, pairs, with_error, bowl)
     nontriv = True
     kws = dict(kw)
     if 'fit_boxsize' in kws and not np.isscalar(kws['fit_boxsize']):
@@ -462,6 +465,14 @@ def part_symmetric(ctx):
                         for with_error in ((False, True) if fn in ('1dg', '2dg') else (False,)):
                             check_symmetric(rec, fn, shape, centre, par, seed, pairs, with_error, kw,
                                             (gi, pi, pairs, fn, str(kw), with_error))
+    # negative wings (over-subtracted background) on centred sources: the total stays positive, the
+    # flux-weighted second moment of the marginals does not
+    th = 0.7
+    par = [40.0, 1.3, 1.0, 2.0, 0.5, -0.7, math.cos(th), math.sin(th)]
+    for shape, bowl in (((15, 15), 0.04), ((15, 21), 0.04), ((21, 15), 0.04), ((11, 11), 0.08), ((21, 21), 0.04)):
+        centre = ((shape[1] - 1) / 2.0, (shape[0] - 1) / 2.0)
+        for fn in ('com', '1dg', '2dg'):
+            check_symmetric(rec, fn, shape, centre, par, 1, 0, False, {}, ('bowl', shape, bowl, fn), bowl=bowl)
 
 
 # --------------------------------------------------------------------------------------------------
@@ -775,7 +786,8 @@ def replay(case):
                             case['nmask'], case['seed'], 'replay')
         elif k == 'sym':
             check_symmetric(rec, case['fn'], tuple(case['shape']), tuple(case['centre']), case['par'],
-                            case['noise_seed'], case['pairs'], case['with_error'], case['kw'], 'replay')
+                            case['noise_seed'], case['pairs'], case['with_error'], case['kw'], 'replay',
+                            bowl=case.get('bowl', 0.0))
         elif k == 'commute':
             check_commute(rec, case['fn'], case['scene'], case['seed'], case['use_mask'], case['use_err'], case['kw'],
                           case['tname'], 'replay')
